@@ -207,6 +207,39 @@ extern "C" void h_hostile_handshake(void) {
   (void)ct;
 }
 
+// ---- C19 (iii-b): the same after an AUTH round of a configured authenticator: the broker's (well-formed, long) AUTH challenge
+// is followed by arbitrary reply bytes - shorter than the challenge, so that anything read past the reply hits what the
+// challenge left in the handshake buffer
+extern "C" void h_hostile_auth_handshake(void) {
+  X* x = new X(); W& w = x->w;
+  w.c.authenticator(vk_authenticator{1, 2, false});
+  w.c.brokers("a", 1883);
+  w.in_api = true; w.c.async_run([&w](error_code ec) { w.run_done++; }); w.in_api = false; vk::drain();
+  int q = w.publish<qos_e::at_least_once>("t", "Q"); vk::drain();
+  bool ok = w.establish(); vk_assert(ok, "first connection");
+  { // AUTH 0x18 (continue authentication), method "m", 12 bytes of Authentication Data
+    uint8_t b[32]; ref::wr bw = {b, sizeof b, 0, false}; bw.u8(0x18); uint8_t pr[24]; ref::wr pw = {pr, sizeof pr, 0, false};
+    uint8_t meth = 'm'; static const uint8_t data[12] = {0, 9, 0, 9, 0, 9, 0, 9, 0, 9, 0, 9}; ref::p_str(pw, 0x15, &meth, 1); ref::p_str(pw, 0x16, data, 12); bw.varint((uint32_t)pw.n); bw.bytes(pr, pw.n);
+    ref::wr o = w.outw(); ref::frame(o, ref::AUTH, 0, b, bw.n); w.commit(o); w.connack_sent = true; w.feed_all(); vk::drain(); w.connack_sent = false; }
+  vk::sock_rec* s = vk::pending_write(); vk_assert(s != nullptr, "the client answers the challenge with an AUTH packet");
+  w.finish_write(s, s->wdata.size(), {}); vk::drain(); vk_reach("auth-round");
+  vk_assert(!w.ops[q].done, "a request completed during the AUTH exchange");
+  w.out_n = w.out_pos = 0;
+  size_t n = 1 + vk_choose(VK_BYTES); ref::wr o = w.outw(); for (size_t i = 0; i < n; i++) o.u8(vk_sym_u8());
+  if (n >= 2) { ref::rd rq = {w.out, n, 1, false}; uint32_t v = rq.varint(); vk_assume(rq.bad || v <= 24); }
+  w.commit(o);
+  ref::packet k; int rv = ref::decode(w.out, w.out_n, k, ref::L_OMIT_PROPS | ref::L_TRAILING | ref::L_DUP_PROPS | ref::L_RESERVED);
+  bool good = rv == ref::OK && k.type == ref::CONNACK && k.rc == 0;
+  w.connack_sent = true;
+  if (vk_choose(2) && w.out_avail() > 1) { w.feed(1 + vk_choose(2)); vk::drain(); vk_reach("split"); }
+  w.feed_all(); vk::drain();
+  if (!good) {
+    if (auto* s2 = vk::pending_write()) { ref::packet p2; int r2 = ref::decode((const uint8_t*)s2->wdata.data(), s2->wdata.size(), p2); vk_assert(r2 == ref::OK && p2.type != ref::PUBLISH, "queued PUBLISH written although the reply after the AUTH round was not a successful CONNACK"); }
+    vk_assert(!w.ops[q].done, "a request completed although the reply after the AUTH round was not a successful CONNACK");
+    vk_reach("rejected");
+  } else vk_reach("accepted");
+}
+
 // ---- kernel: exponential backoff for every generator state
 #include <boost/mqtt5/impl/reconnect_op.hpp>
 extern "C" void h_backoff(void) {
@@ -247,21 +280,6 @@ extern "C" void h_brokers(void) {
 }
 
 // ---- C10: the AUTH exchange of a configured authenticator is the only traffic allowed before CONNACK
-struct vk_authenticator {
-  uint8_t d_init, d_reply; bool fail_at_challenge;
-  template <typename CompletionToken>
-  decltype(auto) async_auth(auth_step_e step, std::string data, CompletionToken&& token) {
-    using Signature = void (error_code, std::string);
-    auto initiate = [this](auto handler, auth_step_e step, std::string) {
-      error_code ec; std::string out;
-      if (step == auth_step_e::client_initial) out = std::string(1, (char)d_init);
-      else if (step == auth_step_e::server_challenge) { out = std::string(1, (char)d_reply); if (fail_at_challenge) ec = asio::error::no_recovery; }
-      asio::post(vk::executor{}, asio::prepend(std::move(handler), ec, out));
-    };
-    return asio::async_initiate<CompletionToken, Signature>(initiate, token, step, std::move(data));
-  }
-  std::string_view method() const { return "m"; }
-};
 extern "C" void h_auth_handshake(void) {
   X* x = new X(); W& w = x->w;
   uint8_t d_init = vk_sym_u8(), d_reply = vk_sym_u8(), d_chal = vk_sym_u8(); bool fail = vk_choose(2);
